@@ -68,13 +68,28 @@ def pieces_matching(nodes, x, value, only=None):
     return out
 
 
-def make_calc_for(m, points, bc, dims=False):
+_LONG_USED = {}
+
+
+def make_calc_for(m, points, bc, dims=False, edited=False):
+    """the solver object initialised for a model with this table.  edited=True: the model was first built - and USED, on a
+    calculator that stays in service for all such tables - with other drag values; the caller then wrote the final values
+    into the same data points (same list, same length) and uses the same calculator again: the drag the solver uses is
+    that of the table the shot carries NOW"""
+    first = [(a, b + 0.05) for a, b in points] if edited else points
     if dims:
-        dm = m.DragModel(bc, [{"Mach": a, "CD": b} for a, b in points], m.Unit.Grain(168), m.Unit.Inch(0.308), m.Unit.Inch(1.2))
+        dm = m.DragModel(bc, [{"Mach": a, "CD": b} for a, b in first], m.Unit.Grain(168), m.Unit.Inch(0.308), m.Unit.Inch(1.2))
     else:
-        dm = m.DragModel(bc, [{"Mach": a, "CD": b} for a, b in points])
+        dm = m.DragModel(bc, [{"Mach": a, "CD": b} for a, b in first])
     shot = m.Shot(weapon=m.Weapon(), ammo=m.Ammo(dm, m.Unit.FPS(2500)))
-    calc = m.Calculator()
+    if not edited:
+        calc = m.Calculator()
+        calc._calc._init_trajectory(shot)
+        return calc._calc
+    calc = _LONG_USED.setdefault("calc", m.Calculator())
+    calc.fire(shot, m.Unit.Foot(30), m.Unit.Foot(10))
+    for pnt, (a, b) in zip(dm.drag_table, points):
+        pnt.CD = b
     calc._calc._init_trajectory(shot)
     return calc._calc
 
@@ -148,7 +163,10 @@ def real_traces(chk, rng, n_custom):
     const = 0.076474 * math.pi / (8 * 144)        # standard air density x pi / (8 x 144)
     for ti, (name, pts, shipped) in enumerate(tabs):
         bc = rng.choice([0.2, 0.5, 1.0, 0.365])
-        tc = make_calc_for(m, pts, bc, dims=bool(ti % 2))      # every other model carries weight / diameter / length
+        edited = (not shipped) and ti % 3 == 0
+        tc = make_calc_for(m, pts, bc, dims=bool(ti % 2), edited=edited)      # every other model carries weight / diameter / length
+        if edited:
+            chk.stratum("real_table_edited_in_place_on_a_long_used_calculator")
         fpts = [(Fraction(a), Fraction(b)) for a, b in pts]
         mach = [a for a, _ in pts]
         n = len(pts)
@@ -290,7 +308,7 @@ def run(chk: core.Check, replay=None) -> None:
     if bad:
         chk.violation("C09.ShippedTableChangedByLibraryCall", {"tables": bad}, {"tables": bad})
     chk.sample(next(iter(raw.values())))
-    chk.require_strata(["int_at_node", "int_beyond_table", "int_midpoint_or_half", "real_shipped", "real_custom", "real_at_node", "real_beyond", "solver_uses_lookup", "solver_lookup_wind_changes_in_flight"])
+    chk.require_strata(["int_at_node", "int_beyond_table", "int_midpoint_or_half", "real_shipped", "real_custom", "real_at_node", "real_beyond", "solver_uses_lookup", "solver_lookup_wind_changes_in_flight", "real_table_edited_in_place_on_a_long_used_calculator"])
     chk.rule.append("every table shape (3..%d nodes, gaps 1..3) x every quarter-grid query (TLC Gen_DragLookup) through 2 entry "
                     "points; all 9 shipped tables and seeded custom tables queried at / +-1 ulp / +-1e-9 around every node and "
                     "midpoint and beyond the last entry; non-trivial = query within the table span" % (6 if thorough else 5))
